@@ -190,6 +190,9 @@ func (v *Vue) evalBoundAttribute(ctx VueContext, attrName, expr string) (any, er
 		// (a function that fails inside the expression fails the render: !fail(x), fail(x)>1)
 		return "", fmt.Errorf("in expression '%s': %w", expr, err)
 	}
+	if neg, ok := v.negatedUndefined(ctx, expr); ok && err != nil {
+		return neg, nil
+	}
 	return "", nil
 }
 
@@ -264,7 +267,10 @@ func (v *Vue) parseObjectPairs(ctx VueContext, content string) ([]objectPair, er
 		if err != nil {
 			// Fall back to stack resolution for variable references;
 			// an undefined variable contributes nothing: falsy for class, omitted for style
-			val, _ = ctx.stack.Resolve(valueExpr)
+			var found bool
+			if val, found = ctx.stack.Resolve(valueExpr); !found {
+				val, _ = v.negatedUndefined(ctx, valueExpr)
+			}
 		}
 
 		pairs = append(pairs, objectPair{key: key, val: val})
